@@ -2,6 +2,8 @@
 
 use crate::world::{BuiltSet, SetSpec};
 use proptest::prelude::*;
+#[allow(unused_imports)]
+use crate::prop_oneof;
 use serde::{Deserialize, Serialize};
 
 #[derive(Clone, Copy, Debug, Serialize, Deserialize, PartialEq, Eq)]
@@ -100,9 +102,12 @@ pub fn tclass() -> impl Strategy<Value = TClass> {
 }
 
 pub fn setgen(max_signers: usize) -> impl Strategy<Value = SetGen> {
-    (1..=max_signers)
-        .prop_flat_map(|n| (proptest::collection::vec(0u16..400, n), proptest::collection::vec(wclass(), n), tclass()))
-        .prop_map(|(seeds, w, t)| SetGen { seeds, w, t })
+    // (no prop_flat_map: it forks the RNG, see engine::OneOf) both vectors are drawn at full length and cut to n
+    (1..=max_signers, proptest::collection::vec(0u16..400, max_signers), proptest::collection::vec(wclass(), max_signers), tclass()).prop_map(|(n, mut seeds, mut w, t)| {
+        seeds.truncate(n);
+        w.truncate(n);
+        SetGen { seeds, w, t }
+    })
 }
 
 /// monotone index map (shrinks toward 0)
